@@ -397,6 +397,89 @@ def step_cond(cfg, loc, p1, p2, inlist, n):
     return append_main(set_item(cfg, loc, it2), L([A("deftemplate"), A(nm), L([A("zp")])] + body))
 
 
+COND_NAMES = ("if-equal", "if-not-equal", "if-in-list", "if-not-in-list")
+NO_SPLICE_PARENTS = EXPAND_NAMES + COND_NAMES + ("concat",)
+
+
+def cond_t(k, v, xs):
+    """a conditional of form k (1..4) that is true for the argument k1 (CfgLang!CondT)"""
+    if k == 1:
+        return L([A("if-equal"), A(v), A("k1")] + xs)
+    if k == 2:
+        return L([A("if-not-equal"), A("k2"), A(v)] + xs)
+    if k == 3:
+        return L([A("if-in-list"), A(v), L([A("k1"), A("k3")])] + xs)
+    return L([A("if-not-in-list"), A(v), L([A("k2"), L([A("k3")])])] + xs)
+
+
+def cond_f(k, v, xs):
+    """a conditional of form k that is false for the argument k1 (CfgLang!CondF)"""
+    if k == 1:
+        return L([A("if-equal"), A(v), A("k2")] + xs)
+    if k == 2:
+        return L([A("if-not-equal"), A(v), A("k1")] + xs)
+    if k == 3:
+        return L([A("if-in-list"), A(v), L([A("k2"), A("k3")])] + xs)
+    return L([A("if-not-in-list"), A(v), L([A("k3"), L([A("k1")])])] + xs)
+
+
+def splice_p(t, p, xs):
+    kids = list(t[1])
+    if len(p) == 1:
+        return L(kids[:p[0] - 1] + list(xs) + kids[p[0]:])
+    kids[p[0] - 1] = splice_p(kids[p[0] - 1], p[1:], xs)
+    return L(kids)
+
+
+def can_nest(cfg, loc, p, q1, q2):
+    it = item_at(cfg, loc)
+    if tuple(p) not in tpl_sites(it):
+        return False
+    shape = get_p(it, p)
+    if tuple(q1) not in all_paths(shape) or not is_l(get_p(shape, q1)):
+        return False
+    if not q2 or tuple(q2) not in all_paths(get_p(shape, q1)):
+        return False
+    full = tuple(q1) + tuple(q2)
+    return all(head_txt(get_p(shape, full[:m])) not in NO_SPLICE_PARENTS for m in range(len(full)))
+
+
+def step_nest(cfg, loc, p, q1, q2, k1, k2, t1, t2, n):
+    it = item_at(cfg, loc)
+    shape = get_p(it, p)
+    e = get_p(shape, q1)
+    e2 = get_p(e, q2)
+    nm = "zT%d" % n
+    inner = [cond_t(k2, "$zd", [e2])] if t2 else [cond_f(k2, "$zd", [e2]), e2]
+    en = splice_p(e, tuple(q2), inner)
+    outer = [cond_t(k1, "$zc", [en])] if t1 else [cond_f(k1, "$zc", [en]), e]
+    body = splice_p(L([shape]), (1,) + tuple(q1), outer)[1]
+    call = L([A("t!" if n % 2 == 0 else "template-expand"), A(nm), A("k1"), A("k1")])
+    return append_main(set_item(cfg, loc, put_p(it, p, call)), L([A("deftemplate"), A(nm), L([A("zc"), A("zd")])] + body))
+
+
+def nest_sites(it):
+    """(p, q1, q2) of every nested-conditional site of an item"""
+    out = []
+    for p in tpl_sites(it):
+        shape = get_p(it, p)
+        for q1 in all_paths(shape):
+            e = get_p(shape, q1)
+            if not is_l(e):
+                continue
+            for q2 in all_paths(e):
+                full = tuple(q1) + tuple(q2)
+                if q2 and all(head_txt(get_p(shape, full[:m])) not in NO_SPLICE_PARENTS for m in range(len(full))):
+                    out.append((tuple(p), tuple(q1), tuple(q2)))
+    return out
+
+
+def nest_variants():
+    """(k1, k2, t1, t2) offered by the specification's Next: a false outer conditional hides the inner one"""
+    return [(k1, k2, t1, t2) for k1 in (1, 2, 3, 4) for k2 in (1, 2, 3, 4) for t1 in (False, True) for t2 in (False, True)
+            if t1 or (k2 == 1 and t2)]
+
+
 def can_include(cfg, i):
     return 1 <= i <= len(cfg["main"]) and head_txt(cfg["main"][i - 1]) != "include"
 
@@ -445,9 +528,69 @@ def step_layermap(cfg, loc):
     return set_item(cfg, loc, put_p(it, pf, L([A("deflayermap"), nm] + pairs)))
 
 
+def raw_pum(cfg):
+    for d in range(0, len(cfg["files"]) + 1):
+        for it in doc(cfg, d):
+            inner = unwrap(it)[1]
+            if head_txt(inner) == "defcfg":
+                ks = inner[1]
+                for k in range(1, len(ks) - 1):
+                    if ks[k] == A("process-unmapped-keys") and ks[k + 1] == A("yes"):
+                        return True
+    return False
+
+
+def can_layermap_w(cfg, loc, w, g, pos):
+    if not can_layermap(cfg, loc):
+        return False
+    ks = unwrap(item_at(cfg, loc))[1][1]
+    src = raw_src(cfg)
+    n = len(src)
+    g = sorted(g)
+    if any(not 1 <= i <= n for i in g) or len(set(map(render, src))) != n or not 0 <= pos <= n - len(g):
+        return False
+    if w == "_":
+        return bool(g) and all(ks[i + 1] == ks[g[0] + 1] for i in g)
+    if w == "__":
+        return not g and raw_pum(cfg)
+    if w == "___":
+        return raw_pum(cfg) and all(ks[i + 1] == A("_") for i in g)
+    return False
+
+
+def step_layermap_w(cfg, loc, w, g, pos):
+    it = item_at(cfg, loc)
+    pf, inner = unwrap(it)
+    src = raw_src(cfg)
+    ks = inner[1]
+    nm = ks[1] if is_l(ks[1]) else L([ks[1]])
+    g = sorted(g)
+    v = ks[g[0] + 1] if w == "_" else A("_")
+    ps = [[s, ks[k + 2]] for k, s in enumerate(src) if (k + 1) not in g]
+    allp = ps[:pos] + [[A(w), v]] + ps[pos:]
+    return set_item(cfg, loc, put_p(it, pf, L([A("deflayermap"), nm] + [x for pr in allp for x in pr])))
+
+
+def layermap_w_sites(cfg, loc):
+    """(w, G, pos) of every wildcard variant of the deflayer at loc"""
+    if not can_layermap(cfg, loc):
+        return []
+    import itertools
+    n = len(raw_src(cfg))
+    out = []
+    for w in ("_", "__", "___"):
+        for r in range(0, n + 1):
+            for g in itertools.combinations(range(1, n + 1), r):
+                for pos in range(0, n - r + 1):
+                    if can_layermap_w(cfg, loc, w, g, pos):
+                        out.append((w, list(g), pos))
+    return out
+
+
 # ------------------------------------------------------------------ CfgLang!Next, enumerated / sampled
-def successors(cfg, n):
-    """every (trail element, configuration) the specification's Next offers from cfg; n = fresh-name index"""
+def successors(cfg, n, nest=False):
+    """every (trail element, configuration) the specification's Next offers from cfg; n = fresh-name index.
+    nest: the member is one on which Next offers the nested-conditional step"""
     out = []
     for loc in locs(cfg):
         it = item_at(cfg, loc)
@@ -472,13 +615,20 @@ def successors(cfg, n):
                 out.append((["platform", list(loc), v], step_platform(cfg, loc, v)))
         if can_layermap(cfg, loc):
             out.append((["layermap", list(loc)], step_layermap(cfg, loc)))
+        for w, g, pos in layermap_w_sites(cfg, loc):
+            out.append((["layermapw", list(loc), w, g, pos], step_layermap_w(cfg, loc, w, g, pos)))
+        if nest:
+            for p, q1, q2 in nest_sites(it):
+                for k1, k2, t1, t2 in nest_variants():
+                    out.append((["nest", list(loc), list(p), list(q1), list(q2), k1, k2, t1, t2],
+                                step_nest(cfg, loc, p, q1, q2, k1, k2, t1, t2, n)))
     for i in range(1, len(cfg["main"]) + 1):
         if can_include(cfg, i):
             out.append((["include", i], step_include(cfg, i, n)))
     return out
 
 
-KINDS = ["alias", "var", "tpl", "cond", "include", "platform", "layermap"]
+KINDS = ["alias", "var", "tpl", "cond", "include", "platform", "layermap", "layermapw", "nest"]
 
 
 def random_step(cfg, n, rng, kinds=KINDS):
@@ -524,6 +674,40 @@ def random_step(cfg, n, rng, kinds=KINDS):
             elif kd == "layermap":
                 if can_layermap(cfg, loc):
                     return ["layermap", list(loc)], step_layermap(cfg, loc)
+            elif kd == "layermapw":
+                if can_layermap(cfg, loc) and len(raw_src(cfg)) <= 12:
+                    c = layermap_w_sites_sample(cfg, loc, rng)
+                    if c:
+                        w, g, pos = c
+                        return ["layermapw", list(loc), w, g, pos], step_layermap_w(cfg, loc, w, g, pos)
+            elif kd == "nest":
+                c = nest_sites(it)
+                if c:
+                    p, q1, q2 = rng.choice(c)
+                    k1, k2, t1, t2 = rng.choice(nest_variants())
+                    return (["nest", list(loc), list(p), list(q1), list(q2), k1, k2, t1, t2],
+                            step_nest(cfg, loc, p, q1, q2, k1, k2, t1, t2, n))
+    return None
+
+
+def layermap_w_sites_sample(cfg, loc, rng):
+    """one random (w, G, pos) for the deflayer at loc (the full set is exponential in the layer width)"""
+    ks = unwrap(item_at(cfg, loc))[1][1]
+    n = len(raw_src(cfg))
+    ws = ["_"] + (["__", "___"] if raw_pum(cfg) else [])
+    for w in rng.sample(ws, len(ws)):
+        if w == "__":
+            g = []
+        elif w == "___":
+            cand = [i for i in range(1, n + 1) if ks[i + 1] == A("_")]
+            g = sorted(rng.sample(cand, rng.randint(0, len(cand))))
+        else:
+            i = rng.randint(1, n)
+            cand = [j for j in range(1, n + 1) if ks[j + 1] == ks[i + 1]]
+            g = sorted(set([i] + rng.sample(cand, rng.randint(0, len(cand)))))
+        pos = rng.randint(0, n - len(g))
+        if can_layermap_w(cfg, loc, w, g, pos):
+            return w, g, pos
     return None
 
 
@@ -545,6 +729,10 @@ def apply_trail(cfg, trail):
             cfg = step_platform(cfg, tuple(st[1]), st[2])
         elif kd == "layermap":
             cfg = step_layermap(cfg, tuple(st[1]))
+        elif kd == "layermapw":
+            cfg = step_layermap_w(cfg, tuple(st[1]), st[2], list(st[3]), st[4])
+        elif kd == "nest":
+            cfg = step_nest(cfg, tuple(st[1]), tuple(st[2]), tuple(st[3]), tuple(st[4]), st[5], st[6], st[7], st[8], n)
         else:
             raise ValueError("unknown step %r" % (st,))
     return cfg
